@@ -30,10 +30,10 @@ type Uns interface {
 }
 type ChecksumService[B any, T any] interface{ Calc(b B) T }
 
-type sum8 struct{}
-type crc16 struct{}
-type crc32s struct{}
-type crc64 struct{}
+type algo8 struct{ n string }
+type algo16 struct{ n string }
+type algo32 struct{ n string }
+type algo64 struct{ n string }
 
 func rec(name string, b *bytes.Buffer) []byte {
 	d := append([]byte(nil), b.Bytes()...)
@@ -41,21 +41,46 @@ func rec(name string, b *bytes.Buffer) []byte {
 	ev("cksum_in")
 	return d
 }
-func (sum8) Calc(b *bytes.Buffer) uint8 {
-	var s uint8
-	for _, x := range rec("SUM8", b) {
-		s += x
+func bsum(d []byte) (s uint32, x uint8) {
+	for _, b := range d {
+		s += uint32(b)
+		x ^= b
 	}
-	return s
+	return
 }
-func (crc16) Calc(b *bytes.Buffer) uint16 { return uint16(crc32.ChecksumIEEE(rec("CRC16", b))) }
-func (crc32s) Calc(b *bytes.Buffer) uint32 { return crc32.ChecksumIEEE(rec("CRC32", b)) }
-func (crc64) Calc(b *bytes.Buffer) uint64 {
-	c := uint64(crc32.ChecksumIEEE(rec("CRC64", b)))
+func (a algo8) Calc(b *bytes.Buffer) uint8 {
+	s, x := bsum(rec(a.n, b))
+	if a.n == "Xor8" {
+		return x
+	}
+	return uint8(s)
+}
+func (a algo16) Calc(b *bytes.Buffer) uint16 {
+	d := rec(a.n, b)
+	if a.n == "Add16" {
+		s, _ := bsum(d)
+		return uint16(s)
+	}
+	return uint16(crc32.ChecksumIEEE(d))
+}
+func (a algo32) Calc(b *bytes.Buffer) uint32 {
+	c := crc32.ChecksumIEEE(rec(a.n, b))
+	if a.n == "Mix32" {
+		return c ^ 0x5a5a5a5a
+	}
+	return c
+}
+func (a algo64) Calc(b *bytes.Buffer) uint64 {
+	c := uint64(crc32.ChecksumIEEE(rec(a.n, b)))
+	if a.n == "Mix64" {
+		return (c<<32 | c) ^ 0x0123456789abcdef
+	}
 	return c<<32 | (c ^ 0xffffffff)
 }
 
-var registry = map[string]any{"SUM8": sum8{}, "CRC16": crc16{}, "CRC32": crc32s{}, "CRC64": crc64{}}
+// names are case-sensitive
+var registry = map[string]any{"SUM8": algo8{"SUM8"}, "CRC16": algo16{"CRC16"}, "CRC32": algo32{"CRC32"}, "CRC64": algo64{"CRC64"},
+	"Xor8": algo8{"Xor8"}, "Add16": algo16{"Add16"}, "Mix32": algo32{"Mix32"}, "Mix64": algo64{"Mix64"}}
 
 func Register(name string, s any) { registry[name] = s }
 func Get(name string) (any, bool) { s, ok := registry[name]; return s, ok }
